@@ -6,6 +6,12 @@ CHECKS = {
  "C02": dict(design="3/C02", technique="metamorphic property-based testing (Hypothesis): rigid-motion covariance and one-run net-force/torque invariants over an orientation mixture concentrated on axis-aligned bonds",
              text="Generated search over template molecules x 5 methods x 3 force evaluators x rigid motions with >50% of the mass on exactly/nearly axis-aligned bonds; oracle = invariance/covariance relation between two runs and zero net force/torque of one run. Exploration: finds orientation-, method- or evaluator-specific breakage within seconds, proves nothing about unexplored inputs.",
              note="Assumes both runs reach the same SCF solution (near-equilibrium templates, adaptive mixing, eps<=1e-8); tolerances 10x above the largest deviation measured on the unchanged tree. PM6 z-pole gradient defect is a recorded known finding."),
+ "C01": dict(design="3/C01", technique="property-based differential testing (Hypothesis): 4-point finite differences of the returned energy at three step sizes vs the returned force, pairwise agreement of the three force evaluators, exact-zero padding force",
+             text="Generated search over the template library (every element of every sp table) x 4 methods x 3 force evaluators x solvers x RHF neutrals/ions/UHF radicals x single/homogeneous/zero-padded batches x ground and CIS/RPA excited surfaces. A discrepancy counts only if it is consistent across three step sizes and the centre energy lies on the stencil's SCF branch. Exploration: finds element-, method-, evaluator- or layout-specific gradient errors down to 2e-5 (autodiff) / 2e-4 eV/A; no claim about unexplored inputs.",
+             note="Assumes the SCF reaches one smooth solution branch along each 4e-3 A stencil (checked from energies; otherwise inconclusive, counted in evidence). SP2 cases are decided by evaluator agreement only. Bonds with a heavy atom along +/-x fall into the recorded C02 frame-singularity finding."),
+ "C11": dict(design="3/C11", technique="model-based property testing: exhaustive enumeration of the small cadence lattice plus Hypothesis-generated cadence tuples, compared with a reference model of due steps and with a cadence-1 reference run",
+             text="The real run loop, OutputConfig, HDF5Writer, XYZWriter and checkpoint code are driven with an analytic stub force field. Quick enumerates all 1250 points of {0..4}^4 x {6,12} steps and 1500 generated tuples (cadences up to 50 and steps+1, xyz/print/checkpoint, molid subsets, BOMD/Langevin, fresh and crashed-and-resumed). Every stream must hold exactly {0} u multiples of its own cadence, no filler rows, values equal to the cadence-1 run. The lattice sub-domain is exhaustive; the rest is exploration.",
+             note="Electronic structure replaced by a stub (the property concerns output code only); XL-BOMD/FSSH-specific streams are not covered by the stub engine. Screen and checkpoint streams: only positive multiples asserted, as the manual promises."),
 }
 NOT_APPLICABLE = []
 def main():
